@@ -109,11 +109,69 @@ func firstOps(ops []ringlab.OpRec, n int) []string {
 	return out
 }
 
+// directed hook-ordered schedules (ringlab/directed.go)
+type directedCase struct {
+	Name    string `json:"name"`
+	Seed    int64  `json:"seed"`
+	NetV    bool   `json:"netv"`
+	Backend int    `json:"backend"`
+}
+
+func runDirected(raw json.RawMessage) (any, error) {
+	var cases []directedCase
+	if err := json.Unmarshal(raw, &cases); err != nil {
+		return nil, err
+	}
+	rep := &batch.Report{}
+	prog := batch.OpenProgress()
+	for _, c := range cases {
+		prog.Begin(c.Name, c)
+		out := batch.CaseResult{Name: c.Name}
+		d := ringlab.RunJoinBehindDeparted(c.Seed, c.NetV, ringlab.Backend(c.Backend))
+		if d.Setup != "" {
+			rep.Count("directed_schedules_not_constructed", 1)
+		} else {
+			nw := 0
+			for range d.Windows {
+				nw++
+			}
+			out.Sig = fmt.Sprintf("directed/%s/netv=%v/backend=%d/windows=%d", d.Name, c.NetV, c.Backend, nw)
+			rep.Count("directed_schedules_constructed(join right behind a departed node)", 1)
+			out.Sample = map[string]any{"schedule": d.Name, "windows_reached": d.Windows, "trace": d.Trace}
+		}
+		for _, f := range d.Findings {
+			out.Violations = append(out.Violations, batch.Viol{Key: f.Key, What: f.What, Witness: f.Witness})
+		}
+		prog.Done(out)
+		rep.Add(out)
+	}
+	return rep, nil
+}
+
+func directedBatches(r *ev.Run, par, nd int) []any {
+	drng := r.Rand("directed")
+	db := make([][]directedCase, min(par, nd))
+	for i := 0; i < nd; i++ {
+		c := directedCase{Name: fmt.Sprintf("directed-%d", i), Seed: drng.Int63(), NetV: i%2 == 1, Backend: []int{int(ringlab.Memory), int(ringlab.Memory), int(ringlab.AOF), int(ringlab.SQLite)}[i%4]}
+		if r.WantCase(c.Name) {
+			db[i%len(db)] = append(db[i%len(db)], c)
+		}
+	}
+	var out []any
+	for _, b := range db {
+		if len(b) > 0 {
+			out = append(out, b)
+		}
+	}
+	return out
+}
+
 func main() {
 	child.Register("cases", runCases)
+	child.Register("directed", runDirected)
 	child.Main()
 	r := ev.Start("C05", "exploration")
-	r.SetRule("same generator as C03 (independent seeds): executions of real rings (memory/AOF/SQLite) with single-writer clients and 1-3 churn goroutines; at quiescence (pointer oracle reached) every live node's RangeKeys(0,0) and ListKeys('') are read; a quarter of the executions also hold lease-only keys that expire (1 s TTL, real time) before a second churn phase moves their ranges; distinct+non-trivial = hash of the interleaving of membership hook events across nodes, and separately the set of kinds of membership operations whose windows overlapped ({join,leave} x {join,leave} x ring distance adjacent / one node between / farther, with or without a failed attempt), for executions with at least one completed join/leave and one acknowledged write; keys are biased to many (16-40) so that every node owns some; a fifth of the executions additionally store 260-560 write-once ballast keys before the churn, so that hand-overs move hundreds of keys")
+	r.SetRule("same generator as C03 (independent seeds): executions of real rings (memory/AOF/SQLite) with single-writer clients and 1-3 churn goroutines; at quiescence (pointer oracle reached) every live node's RangeKeys(0,0) and ListKeys('') are read; a quarter of the executions also hold lease-only keys that expire (1 s TTL, real time) before a second churn phase moves their ranges; distinct+non-trivial = hash of the interleaving of membership hook events across nodes, and separately the set of kinds of membership operations whose windows overlapped ({join,leave} x {join,leave} x ring distance adjacent / one node between / farther, with or without a failed attempt), for executions with at least one completed join/leave and one acknowledged write; keys are biased to many (16-40) so that every node owns some; a fifth of the executions additionally store 260-560 write-once ballast keys before the churn, so that hand-overs move hundreds of keys; plus directed hook-ordered schedules: a member leaves while the periodic tasks are parked (its successor holds its keys and still names it), a node then joins right behind it through that successor; after convergence every stored key must sit on its owner")
 	r.Assume("ownership ranges are computed from the sorted ids of the live nodes after the pointer oracle has been reached")
 	rng := r.Rand("cases-c05")
 	n := r.Pick(24, 300)
@@ -174,5 +232,8 @@ func main() {
 		}
 	}
 	batch.Run(r, "cases", args, par, 20*time.Minute, func(inflight, head string) string { return "crash:" + head })
+	if dargs := directedBatches(r, par, r.Pick(12, 96)); len(dargs) > 0 {
+		batch.Run(r, "directed", dargs, par, 10*time.Minute, func(inflight, head string) string { return "crash:" + head })
+	}
 	r.Finish()
 }
